@@ -211,4 +211,83 @@ theorem shr_coeff_nat {a : Poly} (hk : 0 < a.size) (ha : a.WF) (n i : Nat) :
   rw [Int.toNat_natCast] at hlt
   exact Nat.mod_eq_of_lt (Nat.lt_of_le_of_lt (Nat.div_le_self _ _) hlt)
 
+
+theorem getInt_spec {a : Poly} (ha : a.WF) {i : Int} (h : -(a.dim:Int) ≤ i ∧ i < a.dim) :
+    a.getInt i = .ok ⟨[a.e (Spec.Poly.pos a.dim i)], a.size⟩ := by
+  simp only [getInt, pyGet_ok a h, bind, Except.bind, pure, Except.pure]
+  congr 1
+  apply ofList_WF_eq
+  by_cases hk : a.size = 0
+  · exact Or.inl hk
+  · right; intro x hx; simp at hx; subst hx; exact WF_e ha (Nat.pos_of_ne_zero hk) _
+
+theorem getInt_err (a : Poly) {i : Int} (h : i < -(a.dim:Int) ∨ (a.dim:Int) ≤ i) :
+    a.getInt i = .error "IndexError" := by
+  simp [getInt, pyGet_err a h, bind, Except.bind]
+
+theorem getList_spec {a : Poly} (ha : a.WF) {idx : List Int} (h : ∀ i ∈ idx, -(a.dim:Int) ≤ i ∧ i < a.dim) :
+    a.getList idx = .ok ⟨idx.map (fun i => a.e (Spec.Poly.pos a.dim i)), a.size⟩ := by
+  simp only [getList]
+  rw [mapM_ok (pyGet a.ival) (fun i => a.e (Spec.Poly.pos a.dim i)) idx (fun i hi => pyGet_ok a (h i hi))]
+  simp only [bind, Except.bind, pure, Except.pure]
+  congr 1
+  exact ofList_WF_eq (WF_map_e ha idx _)
+
+theorem getList_err (a : Poly) {idx : List Int} (h : ∃ i ∈ idx, i < -(a.dim:Int) ∨ (a.dim:Int) ≤ i) :
+    ∃ m, a.getList idx = .error m := by
+  obtain ⟨i, hi, hr⟩ := h
+  obtain ⟨m, hm⟩ := mapM_err (pyGet a.ival) idx ⟨i, hi, _, pyGet_err a hr⟩
+  exact ⟨m, by simp [getList, hm, bind, Except.bind]⟩
+
+theorem indices_spec {a : Poly} {start stop step : Option Int} {s e st : Int}
+    (h : sliceIndices start stop step a.dim = .ok (s, e, st)) (hst : 0 ≤ st) :
+    a.indices start stop step = .ok (Py.range s (Spec.Poly.sliceStop stop e) st) := by
+  obtain ⟨_, _, _, he, _⟩ := sliceIndices_bounds h hst
+  simp only [dim] at h
+  simp only [indices, h, bind, Except.bind, pure, Except.pure]
+  rw [if_neg (by omega)]
+  congr 2
+  cases stop with
+  | none => rfl
+  | some x =>
+    simp only [Spec.Poly.sliceStop]
+    split
+    · rename_i hx; omega
+    · rename_i hx; omega
+
+theorem indices_neg_step {a : Poly} {start stop step : Option Int} {s e st : Int}
+    (h : sliceIndices start stop step a.dim = .ok (s, e, st)) (hst : st < 0) :
+    a.indices start stop step = .error "ValueError" := by
+  simp only [dim] at h
+  simp [indices, h, bind, Except.bind, hst]
+
+theorem indices_zero_step (a : Poly) (start stop : Option Int) :
+    ∃ m, a.indices start stop (some 0) = .error m := by
+  simp [indices, sliceIndices, bind, Except.bind]
+
+theorem indices_nonneg {a : Poly} {start stop step : Option Int} {r : List Int}
+    (h : a.indices start stop step = .ok r) : ∀ i ∈ r, 0 ≤ i := by
+  cases hsl : sliceIndices start stop step a.dim with
+  | error m =>
+    simp only [dim] at hsl
+    simp [indices, hsl, bind, Except.bind] at h
+  | ok t =>
+    obtain ⟨s, e, st⟩ := t
+    by_cases hst : 0 ≤ st
+    · rw [indices_spec hsl hst] at h
+      cases h
+      exact range_nonneg (sliceIndices_bounds hsl hst).2.1 hst
+    · rw [indices_neg_step hsl (by omega)] at h; cases h
+
+theorem getSlice_spec {a : Poly} (ha : a.WF) {start stop step : Option Int} {r : List Int}
+    (h : a.indices start stop step = .ok r) :
+    a.getSlice start stop step = .ok ⟨r.map (fun i => a.e i.toNat), a.size⟩ := by
+  simp only [getSlice, h, bind, Except.bind, pure, Except.pure]
+  congr 1
+  exact ofList_WF_eq (WF_map_e ha r _)
+
+theorem getSlice_err {a : Poly} {start stop step : Option Int} {m : Err}
+    (h : a.indices start stop step = .error m) : a.getSlice start stop step = .error m := by
+  simp [getSlice, h, bind, Except.bind]
+
 end Proofs.C16
